@@ -168,16 +168,20 @@ def search_without_model(ctx):
     return True
 
 
+def model_broken(ctx):
+    """A proof obligation, the model build or the harness build is broken: search the implementation alone."""
+    broken = [v for v in ctx.violations if not v.found_input]
+    if broken and search_without_model(ctx):
+        # a failing input was found: it replaces the 'no-failing-input-found' report; what is broken stays named in it
+        for v in ctx.violations:
+            if v.found_input:
+                v.what += " [also: " + "; ".join(b.what for b in broken) + "]"
+        ctx.violations = [v for v in ctx.violations if v.found_input]
+
+
 def check_C11(ctx):
     if not ctx.proofs():
-        broken = [v for v in ctx.violations if not v.found_input]
-        if search_without_model(ctx):
-            # a failing input was found: it replaces the 'no-failing-input-found' report; what is broken stays named in it
-            for v in ctx.violations:
-                if v.found_input:
-                    v.what += " [also: " + "; ".join(b.what for b in broken) + "]"
-            ctx.violations = [v for v in ctx.violations if v.found_input]
-        return
+        return model_broken(ctx)
     ctx.coverage["design_points"] = [
         "MemFS.Sub copies the parent's current directory string into the view: until Chdir is called through the view, the view's cwd may name a directory that does not exist in the view; C11 speaks of relative paths only after the cwd was set through the view (the model copies the string too, and the twin run interprets the view's Getwd() inside the view, as the code does)",
         "a view whose directory is later removed (through the parent or another view) keeps working on the detached directory; nothing it does is visible in the tree any more (counted: views_whose_directory_was_removed)",
@@ -186,11 +190,11 @@ def check_C11(ctx):
     ]
     mm = ctx.stream("fs", "fs", "fs")
     if mm is None:
-        return
+        return model_broken(ctx)
     report_mismatches(ctx, mm, FS, "MemFS differs from the world model (on which the C11 theorems are proved) on %d histories of the fs stream (all calls, Sub/SetUser/SetUMask on up to 4 views)")
     mm = ctx.stream("subview", "subview", "subview")
     if mm is None:
-        return
+        return model_broken(ctx)
     if mm:
         report_subview(ctx, mm)
 
